@@ -91,16 +91,18 @@ for _fn, _rule in (("filter_corner_knees", "(not %s) or IoU(knees[i]) < t" % HAS
         ghost_vars={"IDX": "Seq[Int]", "POS": "Seq[Int]", "KEPT": "Seq[Bool]"},
         spec_funs={"IoU": (["k"], "Real", iou("k"))},
         requires=["forall(0, len(knees), lambda k: 0 <= knees[k] and knees[k] < len(points))"],
-        # The selection rule  KEPT[i] <=> <_rule>  (IoU of the statement's rectangles against t) is NOT part of the discharged
-        # contract: the equivalence between the library's rect/rect_overlap arithmetic and the statement's formula is a
-        # nonlinear (min/max/product/quotient) identity that z3 refuted only unstably (9 s .. >60 s).  It is checked by the
-        # bounded layer rt/c13.py in exact rational arithmetic instead (labelled bounded).
-        bounded_only=["forall(0, len(knees), lambda i: iff(KEPT[i], %s))" % _rule],
-        ensures=subsequence_post("result", "knees", "len(knees)", "len(result)"),
+        # The selection rule  KEPT[i] <=> <_rule>  (IoU of the statement's rectangles against t).  kr.rect and kr.rect_overlap are
+        # called by contract (contracts/knee_ranking.py, proved for C17); the hint p == IoU(idx) links the callee's
+        # intersection-over-union to the statement's rectangle construction.
+        ensures=subsequence_post("result", "knees", "len(knees)", "len(result)") + [
+            "forall(0, len(knees), lambda i: iff(KEPT[i], %s))" % _rule,
+        ],
         loops={0: dict(
             inv=subsequence_post("filtered_knees", "knees", "_it0", "len(filtered_knees)") + [
                 "len(filtered_knees) <= _it0",
+                "forall(0, _it0, lambda i: iff(KEPT[i], %s))" % _rule,
             ],
+            hints=["idx == knees[i]", "p == IoU(idx)"],
             ghost_end=[
                 "KEPT = store(KEPT, i, len(filtered_knees) == len(_h_filtered_knees) + 1)",
                 "IDX = ite(len(filtered_knees) == len(_h_filtered_knees) + 1, store(IDX, len(filtered_knees) - 1, i), IDX)",
